@@ -36,7 +36,8 @@ def _cls(names):
     from npstructures import npdataclass
     key = tuple(names)
     if key not in _classes:
-        base = type("Rec" + "".join(names), (), {"__annotations__": {n: np.ndarray for n in names}})
+        # (every class is called "Rec", whatever its fields: dynamically built record classes under one name are legitimate)
+        base = type("Rec", (), {"__annotations__": {n: np.ndarray for n in names}})
         _classes[key] = npdataclass(base)
     return _classes[key]
 
@@ -104,6 +105,7 @@ def cases(rng, tier):
                 p["names"] = sub
             if f == "eq":
                 p["flip"] = rng.random() < 0.5
+                p["eqmode"] = rng.choice(["plain", "plain", "narrow", "one_cell"])
         out.append(p)
     return out
 
@@ -181,6 +183,20 @@ def run_impl(p):
             return _table(obj[idx], names)
         if f == "iter":
             return [[np.atleast_1d(np.asarray(getattr(r, n))).tolist() for n in names] for r in obj]
+        if f == "eq" and p.get("eqmode") in ("narrow", "one_cell") and len(obj) >= 1:
+            arrs = [_arr(c) for c in p["cols"]]
+            j = next((i for i, a in enumerate(arrs) if a.ndim == 2 and a.shape[1] >= 2), None)
+            if p["eqmode"] == "narrow" and j is not None:
+                # a 2-D field whose rows are constant, against the same table with that field one column wide: different tables,
+                # although the fields are equal after broadcasting
+                wide = np.repeat(arrs[j][:, :1], arrs[j].shape[1], axis=1)
+                a = _cls(names)(*[wide if i == j else x for i, x in enumerate(arrs)])
+                b = _cls(names)(*[wide[:, :1] if i == j else x for i, x in enumerate(arrs)])
+                return bool(a == b)
+            # one cell of one field differs
+            other_arrs = [x.copy() for x in arrs]
+            other_arrs[-1].reshape(-1)[-1] += 1
+            return bool(obj == _cls(names)(*other_arrs))
         if f == "eq":
             other = _obj(p["cols"])
             if p["flip"] and len(obj) >= 2:
@@ -237,6 +253,8 @@ def oracle(p):
         return {"k": "obs", "entries": canon([list(r) for r in rows]), "len": canon(len(rows)), "names": canon(names)}
     if f == "iter":
         return canon(ents)
+    if f == "eq" and p.get("eqmode") in ("narrow", "one_cell") and len(ents) >= 1:
+        return canon(False)
     if f == "eq":
         if p["flip"] and len(ents) >= 2:
             return canon(ents == ents[::-1])
